@@ -84,16 +84,34 @@ Definition failing_group (g : case) : list nat :=
   failing_ids (agree_sub d1 d2 meth M mask iters tape) sub_id subs.
 Definition failing (gs : list case) : list nat := flat_map failing_group gs.
 
-(* ---- direct calls of svd_flip / truncated_svd / symeig_svd (second case type, same shard machinery) ---- *)
+(* ---- direct calls of svd_flip / symeig_svd / randomized_svd (second case type, same shard machinery) ---- *)
+(* taped oracles: tl.qr by call order (its argument must match the model's own product to 1e-9), tl.svd by argument *)
+Definition lookup_qr (tape : list (qmat * qmat)) (k : nat) (X : qmat) : qmat :=
+  match nth_error tape k with
+  | Some (Xin, Qout) => if mat_close lookup_tol lookup_tol Xin X then Qout else []
+  | None => []
+  end.
+Definition lookup_svd (tape : list (qmat * triple Q * triple Q)) (X : qmat) (full : bool) : triple Q :=
+  match find (fun e => mat_close lookup_tol lookup_tol (fst (fst e)) X) tape with
+  | Some (_, a, b) => if full then a else b
+  | None => empty3
+  end.
+
 Inductive dcase :=
 | DFlip (id : nat) (U V : qmat) (ub : bool) (eU eV : qmat)
-| DSymeig (id : nat) (d1 d2 : nat) (n : option nat) (M : qmat) (lam : list Q) (W : qmat) (expected : triple Q).
+| DSymeig (id : nat) (d1 d2 : nat) (n : option nat) (M : qmat) (lam : list Q) (W : qmat) (expected : triple Q)
+| DRandom (id : nat) (d1 d2 : nat) (n : option nat) (n_over n_iter : nat) (M G : qmat)
+          (qrs : list (qmat * qmat)) (svds : list (qmat * triple Q * triple Q)) (expected : triple Q).
 
 Definition dagree (c : dcase) : bool :=
   match c with
   | DFlip _ U V ub eU eV => let '(U', V') := svd_flip Qops U V ub in mat_eqb U' eU && mat_eqb V' eV
   | DSymeig _ d1 d2 n M lam W e =>
       triple_close (Qmake 1 1000000000) (Qmake 1 1000000) (symeig_svd Qops (fun _ => (lam, W)) qsqrt eps64 M d1 d2 n) e
+  | DRandom _ d1 d2 n n_over n_iter M G qrs svds e =>
+      triple_close (Qmake 1 1000000000) (Qmake 1 10000000)
+                   (randomized_svd Qops (lookup_svd svds) (lookup_qr qrs) G M d1 d2 n n_over n_iter) e
   end.
-Definition dident (c : dcase) : nat := match c with DFlip i _ _ _ _ _ => i | DSymeig i _ _ _ _ _ _ _ => i end.
+Definition dident (c : dcase) : nat :=
+  match c with DFlip i _ _ _ _ _ => i | DSymeig i _ _ _ _ _ _ _ => i | DRandom i _ _ _ _ _ _ _ _ _ _ => i end.
 Definition dfailing := failing_ids dagree dident.
